@@ -135,9 +135,18 @@ func WriteEvidence(e *Evidence) {
 // ReplayLinear re-executes root+ops on a fresh world without the explorer and returns every
 // finding of the property's oracles along the path (the "plain unit test" form of a trace).
 func ReplayLinear(cfg *Config, root string, ops []string) ([]Finding, error) {
+	return replayLinearFrom(cfg, root, ops, 0)
+}
+
+// ExportImportOp is a pseudo-op of linear traces: the committed state is exported as a genesis
+// document and a FRESH application is started from it (World.ExportImport); the trace continues there.
+const ExportImportOp = "export_import"
+
+// replayLinearFrom judges only the steps with index >= judgeFrom (the steps before only build the state).
+func replayLinearFrom(cfg *Config, root string, ops []string, judgeFrom int) ([]Finding, error) {
 	lib := NewOpLib()
 	w := NewWorld(cfg.Fixture)
-	defer w.Close()
+	defer func() { w.Close() }()
 	BuildRoot(w, root, lib)
 	var out []Finding
 	measure := func() []Measure {
@@ -161,8 +170,41 @@ func ReplayLinear(cfg *Config, root string, ops []string) ([]Finding, error) {
 			}
 		}
 	}
+	if judgeFrom > 0 {
+		out = nil
+	}
 	path := []string{}
-	for _, n := range ops {
+	for step, n := range ops {
+		if step == judgeFrom && judgeFrom > 0 {
+			out = nil // drop what the state-building steps reported
+		}
+		if n == ExportImportOp {
+			path = append(path, n)
+			nw, err := w.ExportImport()
+			if err != nil {
+				if nw != nil {
+					nw.Close()
+				}
+				out = append(out, Finding{Clause: "genesis_export_import_failed", Culprit: "genesis_export_import", Disc: "", Detail: err.Error()})
+				return out, nil
+			}
+			w.Close()
+			w = nw
+			ms := measure()
+			for i, o := range cfg.Oracles {
+				if o.State != nil {
+					for k, v := range ms[i] {
+						pv := parent[i][k]
+						if nz(v) && v != pv {
+							cl, disc := splitKey(k)
+							out = append(out, Finding{Clause: cl, Culprit: "genesis_export_import", Disc: disc, Detail: fmt.Sprintf("drift %s -> %s between the exporting chain and the chain started from its exported genesis", orZero(pv), v)})
+						}
+					}
+				}
+			}
+			parent = ms
+			continue
+		}
 		if !lib.Has(n) {
 			return out, fmt.Errorf("unknown op %s", n)
 		}
